@@ -96,6 +96,12 @@ type vfxSpec struct {
 	// built again"): the same objects with the same CIDs at the same CAR offsets, followed by the new blocks (only
 	// the Subset / Epoch objects at the end and the root CID differ; objects of spec.Boundary come after the blocks).
 	ExtraSlots int `json:"extra_slots,omitempty"`
+
+	// BigRewards (optional, default 0 = as before): every Rewards object the generator writes gets BigRewards>>k
+	// (k drawn from 0..4 per block) further reward entries with pseudo-random accounts, so that the Rewards nodes (one
+	// data frame each, zstd-compressed protobuf) are of very different sizes: BigRewards = 6000 gives nodes of roughly
+	// 15 KiB .. 300 KiB, as the rewards of blocks at an epoch boundary are. No random number is drawn for it when 0.
+	BigRewards int `json:"big_rewards,omitempty"`
 }
 
 type vfxObj struct {
@@ -538,6 +544,11 @@ func vfxGenerate(spec vfxSpec) (*vfxTruth, []byte) {
 			if spec.OddRewards {
 				for _, c := range []string{"", "7", "12.5", "n/a"} {
 					rw.Rewards = append(rw.Rewards, &confirmed_block.Reward{Pubkey: vfxAccount(0, 1).String(), Lamports: 1, PostBalance: 2, RewardType: confirmed_block.RewardType_Voting, Commission: c})
+				}
+			}
+			if spec.BigRewards > 0 {
+				for n := spec.BigRewards >> uint(rng.Intn(5)); n > 0; n-- {
+					rw.Rewards = append(rw.Rewards, &confirmed_block.Reward{Pubkey: solana.PublicKeyFromBytes(rng.Bytes(32)).String(), Lamports: int64(rng.Intn(1 << 30)), PostBalance: rng.U64() >> 20, RewardType: confirmed_block.RewardType_Staking})
 				}
 			}
 			rb, _ := proto.Marshal(rw)
